@@ -60,6 +60,21 @@ pub struct Known {
     pub text: String,
 }
 
+static KNOWN: std::sync::OnceLock<Vec<Known>> = std::sync::OnceLock::new();
+
+/// Register the known findings for the running property: a failure whose key
+/// matches one of them is counted (`excluded_known`) and the search continues.
+pub fn set_known(id: &str, all: &[Known]) {
+    let _ = KNOWN.set(all.iter().filter(|k| k.property == id).cloned().collect());
+}
+
+fn known_match(key: &str) -> Option<&'static Known> {
+    if key.is_empty() {
+        return None;
+    }
+    KNOWN.get().and_then(|v| v.iter().find(|k| k.key == key))
+}
+
 pub fn load_known(dir: &PathBuf) -> Vec<Known> {
     let mut out = Vec::new();
     let p = dir.join("known_findings.txt");
@@ -214,11 +229,15 @@ where
                                 let _ = std::fs::write(t, r.to_json().to_string());
                             }
                             if failed.get() {
-                                // shrinking: evaluate without touching the statistics
+                                // shrinking: evaluate without touching the statistics; only a failure with the
+                                // SAME signature counts, so shrinking cannot drift onto a different (possibly
+                                // listed) finding
                                 let mut scratch = Stats::default();
+                                let want_key = first_failure.borrow().as_ref().map(|(_, f)| f.key.clone()).unwrap_or_default();
                                 return match check(&r, &mut scratch) {
                                     Ok(()) => Ok(()),
-                                    Err(f) => Err(TestCaseError::fail(f.message)),
+                                    Err(f) if f.key == want_key => Err(TestCaseError::fail(f.message)),
+                                    Err(_) => Ok(()),
                                 };
                             }
                             if stop.load(Ordering::Relaxed) {
@@ -228,6 +247,12 @@ where
                             st.evaluations += 1;
                             match check(&r, &mut st) {
                                 Ok(()) => Ok(()),
+                                Err(f) if !f.harness && known_match(&f.key).is_some() => {
+                                    // a listed finding: excluded by construction, the search continues behind it
+                                    st.excluded_known += 1;
+                                    st.count(&format!("known-finding:{}", f.key));
+                                    Ok(())
+                                }
                                 Err(f) => {
                                     failed.set(true);
                                     stop.store(true, Ordering::Relaxed);
@@ -241,8 +266,10 @@ where
                             Ok(()) => None,
                             Err(TestError::Fail(_, recipe)) => {
                                 let mut scratch = Stats::default();
+                                let want_key = first_failure.borrow().as_ref().map(|(_, f)| f.key.clone()).unwrap_or_default();
                                 match check(&recipe, &mut scratch) {
-                                    Err(f) => Some((Some(recipe), f)),
+                                    Err(f) if f.key == want_key || f.harness => Some((Some(recipe), f)),
+                                    Err(_) => first_failure.borrow_mut().take().map(|(r0, f0)| (Some(r0), f0)),
                                     Ok(()) => match (history_dependent, first_failure.borrow_mut().take()) {
                                         (true, Some((r0, mut f0))) => {
                                             f0.message = format!("{} [observed once; does not reproduce when re-run in isolation, i.e. the result depended on the call history]", f0.message);
@@ -309,6 +336,11 @@ where
                                 }
                                 stats.evaluations += 1;
                                 if let Err(f) = check(i, &mut stats) {
+                                    if !f.harness && known_match(&f.key).is_some() {
+                                        stats.excluded_known += 1;
+                                        stats.count(&format!("known-finding:{}", f.key));
+                                        continue;
+                                    }
                                     stop.store(true, Ordering::Relaxed);
                                     return (stats, Some(f));
                                 }
@@ -390,7 +422,7 @@ pub fn finish(ctx: &Ctx, mut rep: Report) -> i32 {
     std::fs::create_dir_all(ctx.verif_dir.join("replays")).ok();
     for (recipe, f) in &rep.violations {
         if let Some(k) = ctx.known.iter().find(|k| k.property == ctx.id && !f.key.is_empty() && k.key == f.key) {
-            lines.push(format!("KNOWN-FINDING: property={} {}", ctx.id, k.text));
+            lines.push(format!("KNOWN-FINDING: {}", k.text));
             continue;
         }
         violations += 1;
@@ -411,6 +443,11 @@ pub fn finish(ctx: &Ctx, mut rep: Report) -> i32 {
     }
     for k in &rep.known_hits {
         lines.push(format!("KNOWN-FINDING: property={} {}", ctx.id, k));
+    }
+    for k in ctx.known.iter().filter(|k| k.property == ctx.id) {
+        if rep.stats.counters.contains_key(&format!("known-finding:{}", k.key)) {
+            lines.push(format!("KNOWN-FINDING: {}", k.text));
+        }
     }
     let mut samples: Vec<Value> = Vec::new();
     for (class, v) in &rep.stats.samples {
@@ -452,6 +489,9 @@ pub fn finish(ctx: &Ctx, mut rep: Report) -> i32 {
         eprintln!("cannot write evidence {}: {e}", epath.display());
         return 2;
     }
+    lines.dedup();
+    let mut seen = std::collections::BTreeSet::new();
+    lines.retain(|l| seen.insert(l.clone()));
     for l in &lines {
         println!("{l}");
     }
